@@ -23,7 +23,7 @@ RULE = ("job lifecycles (enqueue with args bucket, consume, actor run, ack/nack/
 ASSUMPTIONS = ["ground truth is taken by a harness-side class-level wrapper around _middleware_wrapper.__call__ (no repository edit)", "virtual time",
                "the operation's first effect = the first event logged by the broker-boundary recorder inside the wrapped function"]
 EVAL_COUNTER = "operations_judged"
-REQUIRED = ["operations_performed_by_subscribers", "effects_located", "actor_run_effects_located", "operations_judged", "nested_operations_seen", "failed_operations_seen", "differential_pairs", "two_connection_runs", "op_actor_run", "op_store_bucket", "op_consume", "middleware_method_calls", "twin_middleware_calls"]
+REQUIRED = ["single_subscriber_runs", "operations_performed_by_subscribers", "effects_located", "actor_run_effects_located", "operations_judged", "nested_operations_seen", "failed_operations_seen", "differential_pairs", "two_connection_runs", "op_actor_run", "op_store_bucket", "op_consume", "middleware_method_calls", "twin_middleware_calls"]
 CASE_TIMEOUT = 150
 
 SUBSETS = ["none", "recording", "raising", "slow", "sync", "partial", "mixed"]
@@ -50,6 +50,9 @@ CUR_OP = contextvars.ContextVar("rv_c17_op", default=None)
 # set by the `followup` subscribers around the operations THEY perform: a subscriber runs before / after the wrapped function,
 # not inside it, so what it does is a top-level operation of its own (and owes its own signals)
 IN_SUB = contextvars.ContextVar("rv_c17_in_subscriber", default=False)
+# written by the `ctxvar` subscribers (request-scoped state of a tracing middleware): must never be visible inside an operation
+# or in the caller's context afterwards
+SUBCTX = contextvars.ContextVar("rv_c17_subscriber_state", default=None)
 
 
 def install_spy(rig_log, owner_of):
@@ -104,6 +107,11 @@ def make_subscribers(kind, label, signals, rig_log, names, conn=None):
     subs = []
     for name in names:
         def mk(name=name):
+            if kind == "ctxvar":
+                async def g():
+                    SUBCTX.set(name)
+                g.__name__ = name
+                return g
             if kind == "followup":
                 # subscribers that work with the connection themselves (an audit record per enqueued message, a look at it
                 # before a message is dead-lettered, a follow-up job after an actor ran): operations of their own
@@ -254,10 +262,10 @@ async def lifecycle(loop, case, subset, record):
             return "?"
 
         truth, uninstall = install_spy(w.log, owner_of)
-        w.log.extra = lambda: {"opid": CUR_OP.get()}
+        w.log.extra = lambda: {"opid": CUR_OP.get(), "sub_ctx": SUBCTX.get()}
         signals = []
         names = sorted(SUBSCRIBERS_NAMES)
-        flavours = {"followup": ["followup", "recording"], "none": [], "recording": ["recording"], "raising": ["raising", "recording"], "slow": ["slow", "recording"], "sync": ["sync", "recording"],
+        flavours = {"ctxvar": ["ctxvar"], "followup": ["followup", "recording"], "none": [], "recording": ["recording"], "raising": ["raising", "recording"], "slow": ["slow", "recording"], "sync": ["sync", "recording"],
                     "partial": ["partial", "noargs", "needy", "recording"], "mixed": ["raising", "slow", "sync", "partial", "noargs", "needy", "recording"]}[subset]
         for lab, c in conns.items():
             for fl in flavours:
@@ -512,7 +520,8 @@ def run_case(case):
     out, fps = [], set()
     recs = {}
     # (`followup`: subscribers that perform operations of their own; judged on its signals only, its operations differ by design)
-    for subset in SUBSETS + ["followup"]:
+    # (`ctxvar`: exactly ONE subscriber per signal, which writes a context variable: the operation and its caller never see it)
+    for subset in SUBSETS + ["followup", "ctxvar"]:
         rec = {}
         res = vl.run(lambda loop: lifecycle(loop, case, subset, rec), max_steps=4_000_000, seed=case["seed"])
         if res.exc is not None or "truth" not in rec:
@@ -520,6 +529,15 @@ def run_case(case):
             continue
         if rec.get("unknown"):
             return {"fp": None, "viol": [], "stats": dict(stats), "inconclusive": "fake server saw unknown commands"}
+        if subset == "ctxvar":
+            leaks = [e for e in rec["events"] if e.get("sub_ctx") is not None]
+            stats["events_checked_for_subscriber_state"] += len(rec["events"])
+            stats["single_subscriber_runs"] += 1
+            if leaks:
+                e0 = leaks[0]
+                out.append(V("subscriber_changed_outcome", case["kind"], "ctxvar/subscriber-state-visible", f"a lone async subscriber set a context variable; {len(leaks)} events logged inside operations (or by their caller afterwards) "
+                                                                                                      f"saw it, first: {e0.get('k')} {e0.get('op') or e0.get('actor')} saw {e0['sub_ctx']!r}"))
+            continue
         if subset == "followup":
             judge_signals(case, subset, rec, out, stats, fps)
             stats["operations_performed_by_subscribers"] += sum(1 for t in rec["truth"] if t.get("from_subscriber"))
